@@ -28,6 +28,7 @@ RULE = (
     "(every third seed) answers although the suppress bit is set. Replay phase: DBUDSServer(db, ecu name and/or properties) behind "
     "UDSServerTransport.handle_request from the default state, same request sequence. Oracle: the reply bytes captured on the recording "
     "wire are reproduced one by one, silence where nothing was received, whichever other runs the database contains (other ECUs, a second address of the same ECU, an earlier or later scan of the same ECU with other properties). Requests without "
+    "A quarter of the cases keep a second connection to the database file open from before the recording until after the replay (rows still in the write-ahead log). "
     "reply in a non-default state are excluded from the main search (recorded known finding) and counted. Non-trivial: the history has a "
     "state change and a repeated request with different answers. Distinct by (seeds, histories, selection)."
 )
